@@ -51,6 +51,9 @@ class ElemArr(Model):
         a = ElemArr(name, writable)
         st.heap[name] = ex.fv(name, 'bv8')
         st.heap[(name, 'size')] = size if size is not None else ex.fv(name + '_size', 'int')
+        ex.readonly.add((name, 'size'))
+        if not writable:
+            ex.readonly.add(name)
         return a
 
     def elem(self, st):
